@@ -84,7 +84,15 @@ inline double leaf_deriv(int k, int i) {
 // scalar alphabet: a fraction, an integer (valid exponent for negative bases),
 // a negative number, and one value that collides with leaf x2 (exact zeros,
 // min/max ties: exercises the domain/kink classification).
-inline double scalar_value(int s) { static const double v[NSCAL] = {0.75, 2.0, -1.25, 1.3}; return v[s]; }
+// c4..c8: the integral values used by the SCALAR-TYPE regime (scalar of C++ type float/int/unsigned/long/short at the root)
+constexpr int NSCAL_ALL = 9;
+inline double scalar_value(int s) { static const double v[NSCAL_ALL] = {0.75, 2.0, -1.25, 1.3, 2.0, 10.0, 3.0, -4.0, 1.0}; return v[s]; }
+enum SType { ST_DOUBLE, ST_FLOAT, ST_INT, ST_UNSIGNED, ST_LONG, ST_SHORT, NSTYPES };
+inline const char* stype_name(int t) { static const char* n[NSTYPES] = {"double", "float", "int", "unsigned", "long", "short"}; return n[t]; }
+// comparison forms with a scalar: bit i of the mask
+constexpr int NCMP = 11;
+inline const char* cmp_name(int i) { static const char* n[NCMP] = {"x==s", "x!=s", "x<s", "x>s", "x<=s", "x>=s", "s<x", "s>x", "s<=x", "s>=x", "s!=x"}; return n[i]; }
+inline unsigned cmp_expected(double x, double s) { bool r[NCMP] = {x == s, x != s, x < s, x > s, x <= s, x >= s, s < x, s > x, s <= x, s >= x, s != x}; unsigned m = 0; for (int i = 0; i < NCMP; ++i) if (r[i]) m |= 1u << i; return m; }
 
 struct Node { uint8_t kind; uint8_t par; int8_t a; int8_t b; };   // par: leaf index or scalar index
 struct Tree {
@@ -132,7 +140,7 @@ struct Parser {
     [[noreturn]] void fail(const char* m) { throw std::runtime_error(std::string("bad tree '") + s + "': " + m + " at " + std::to_string(p)); }
     void expect(char c) { if (p >= s.size() || s[p] != c) fail("unexpected character"); ++p; }
     int digit(int lim) { if (p >= s.size() || s[p] < '0' || s[p] >= '0' + lim) fail("index out of range"); return s[p++] - '0'; }
-    int scalar() { expect('c'); return digit(NSCAL); }
+    int scalar() { expect('c'); return digit(NSCAL_ALL); }
     Tree tree() {
         if (p < s.size() && s[p] == 'x' && p + 1 < s.size() && s[p + 1] >= '0' && s[p + 1] <= '9') { ++p; return t_leaf(digit(NLEAF)); }
         size_t q = p; while (q < s.size() && s[q] != '(') ++q;
@@ -349,6 +357,10 @@ struct Variant {
     void (*eval)(const Tree& t, int idx, int n, double* out) = nullptr;
     // same for the root, but the (mixed) root operator replaced by its all-Evaluation twin, scalar lifted to a constant
     void (*eval_lifted)(const Tree& t, int n, double* out) = nullptr;
+    // root must be a mixed form: its scalar is passed with C++ type `stype` (value double -> that type); false: the headers do not provide the form for that type
+    bool (*eval_typed)(const Tree& t, int n, int stype, double* out) = nullptr;
+    // the 11 comparison forms of (subtree result, scalar of C++ type stype) as a bit mask
+    unsigned (*cmp_typed)(const Tree& t, int n, int stype, double s) = nullptr;
 };
 
 } // namespace c16
